@@ -269,14 +269,43 @@ def build_flag_fixture(case, seed):
     def hook(ts, cbid, stream):
         ts['capture_block_id'] = cbid
         ts['stream_name'] = stream
+        for c in case['candidates']:
+            cs = ts.view(ts.join(cbid, c['name']), exclusive=True)
+            if c.get('cb_type') is not None:
+                cs['stream_type'] = c['cb_type']
+            if c.get('cb_src') is not None:
+                cs['src_streams'] = list(c['cb_src'])
+            if c.get('inherit'):
+                ts.view(c['name'], exclusive=True)['inherit'] = c['inherit']
+        if case.get('archived_decoy') is not None:
+            # the real list lives in the capture block namespace, a less specific decoy in the global one
+            ts.view(cbid, exclusive=True)['sdp_archived_streams'] = [stream] + [c['name'] for c in case['candidates']]
+    decoy = case.get('archived_decoy')
     x = v4.build_v4(T=T, F=F, arrays={'flags': own}, flag_streams=cands, seed=seed,
-                    chunks={'correlator_data': (1, F, B)}, construct=False, telstate_hook=hook)
+                    chunks={'correlator_data': (1, F, B)}, construct=False, telstate_hook=hook,
+                    archived_override=None if decoy is None else ['sdp_l0'] + list(decoy))
     os.makedirs(os.path.join(x.tmp, x.cbid))
     x.rdb = os.path.join(x.tmp, x.cbid, '%s_%s.rdb' % (x.cbid, x.stream))
     with RDBWriter(x.rdb) as w:
         w.save(x.telstate)
     x.B = B
     return x
+
+
+def effective(case, c, key):
+    """Attribute of an archived stream per the property: capture block + stream, capture block + inherited streams,
+    (capture block), stream, inherited streams.  key: 'type' | 'src'."""
+    by_name = {d['name']: d for d in case['candidates']}
+    chain = [c]
+    while chain[-1].get('inherit') in by_name:
+        chain.append(by_name[chain[-1]['inherit']])
+    for d in chain:
+        if d.get('cb_' + key) is not None:
+            return d['cb_' + key]
+    for d in chain:
+        if d.get(key) is not None:
+            return d[key]
+    return None
 
 
 def spec_of_mode(case, mode):
@@ -288,7 +317,8 @@ def spec_of_mode(case, mode):
     if not has_store and n_ts is not None:
         return dict(dumps=n_ts, ts_ok=True)          # nothing is derived from the streams
     cands = case['candidates']
-    matching = [(i, c) for i, c in enumerate(cands) if c['type'] == 'sdp.flags' and 'sdp_l0' in c['src']] if upgrade else []
+    matching = [(i, c) for i, c in enumerate(cands)
+                if effective(case, c, 'type') == 'sdp.flags' and 'sdp_l0' in (effective(case, c, 'src') or [])] if upgrade else []
     if any(c['F'] != F for _, c in matching):
         return 'ValueError'
     wi, win = matching[-1] if matching else (None, None)
@@ -431,7 +461,23 @@ def gen_flag_case(rng):
         cands.append(dict(name='fl%d' % i, T=max(1, T + rng.choice([0, 0, 1, -1, 2, 3])), F=F if rng.random() < 0.85 else F + 2,
                           type=rng.choice(['sdp.flags', 'sdp.flags', 'sdp.flags', 'sdp.vis', None]),
                           src=rng.choice([['sdp_l0'], ['sdp_l0'], ['other'], ['other', 'sdp_l0'], []])))
-    return dict(T=T, F=F, candidates=cands)
+    case = dict(T=T, F=F, candidates=cands)
+    # placements: attributes of a candidate in its capture-block namespace (more specific than its stream namespace,
+    # which then holds a different value), inherited from another archived stream, list of archived streams
+    # defined in the capture block namespace with a less specific decoy in the global one
+    for i, c in enumerate(cands):
+        r = rng.random()
+        if r < 0.2:
+            c['cb_type'] = rng.choice(['sdp.flags', 'sdp.vis'])
+        elif r < 0.3:
+            c['cb_src'] = rng.choice([['sdp_l0'], ['other']])
+        elif r < 0.45 and i > 0:
+            c['inherit'] = cands[rng.randrange(i)]['name']
+            if rng.random() < 0.7:
+                c['type'] = None
+    if cands and rng.random() < 0.25:
+        case['archived_decoy'] = rng.choice([[], [cands[0]['name']], [c['name'] for c in reversed(cands)]])
+    return case
 
 
 def all_modes(case, rng, cbid='1234567890'):
@@ -473,6 +519,16 @@ def check_flag_streams(ctx, case=None, n_modes=None):
     finally:
         v4.cleanup(x)
     ctx.count('flag_streams:%d' % len(case['candidates']))
+    # how often the namespace placement of the candidates' attributes decides the outcome
+    plain = dict(T=case['T'], F=case['F'],
+                 candidates=[{k: c[k] for k in ('name', 'T', 'F', 'type', 'src')} for c in case['candidates']])
+    m0 = dict(how='ctor', store='given', upgrade=True, n_ts=None)
+    if case.get('archived_decoy') is not None or any(set(c) - {'name', 'T', 'F', 'type', 'src'} for c in case['candidates']):
+        ctx.count('flag_layout:varied')
+        dec = dict(plain, candidates=[c for c in plain['candidates'] if c['name'] in (case.get('archived_decoy') or [])]) \
+            if case.get('archived_decoy') is not None else plain
+        if spec_of_mode(plain, m0) != spec_of_mode(case, m0) or spec_of_mode(dec, m0) != spec_of_mode(case, m0):
+            ctx.count('flag_layout:decides_outcome')
 
 
 def run(ctx):
@@ -500,7 +556,7 @@ def run(ctx):
     finally:
         shutil.rmtree(tmp, ignore_errors=True)
     # flag streams x every way of opening: two fixtures opened in ALL ways, the others in a sample of ways
-    for k in range(ctx.scale(14, 150)):
+    for k in range(ctx.scale(30, 300)):
         check_flag_streams(ctx, n_modes=None if k < 2 else 6)
     # a longer flag stream opened as metadata only / with data, deterministic (the shape of seeded change C18-2)
     fixed = dict(T=3, F=4, candidates=[dict(name='fl0', T=5, F=4, type='sdp.flags', src=['sdp_l0'])])
